@@ -2996,10 +2996,11 @@ def _success_only_reads(fi, h):
     for the others.  [(name, the reading node)]; [] when the handler leaves the iteration itself."""
     mod = fi.mod
     tr = mod.parents.get(h)
-    if not isinstance(tr, ast.Try) or not h.body or isinstance(h.body[-1], (ast.Continue, ast.Return, ast.Raise, ast.Break)):
+    if not isinstance(tr, ast.Try) or not h.body:
         return []
+    leaves = isinstance(h.body[-1], (ast.Continue, ast.Return, ast.Raise, ast.Break))
     in_try = _own_stores(tr.body + tr.orelse)
-    bound = _own_stores(h.body) | ({h.name} if h.name else set())
+    bound = set()
     following = [list(tr.finalbody)]
     cur, in_loop = tr, False
     while cur is not None and cur is not fi.node:
@@ -3025,8 +3026,9 @@ def _success_only_reads(fi, h):
     cand = in_try - bound
     if not cand:
         return []
-    out, rebound = [], set()
-    for block in following:
+    out, rebound = [], set([h.name] if h.name else [])
+    # (the handler itself runs first: what it reads before binding it may not exist yet either)
+    for block in [list(h.body)] + ([] if leaves else following):
         for st in block:
             todo = [st]
             while todo:
@@ -3039,7 +3041,28 @@ def _success_only_reads(fi, h):
                 todo.extend(ast.iter_child_nodes(x))
             if isinstance(st, (ast.Assign, ast.AnnAssign)):
                 rebound |= _own_stores(st.targets if isinstance(st, ast.Assign) else [st.target])
+        if block and block[0] is h.body[0]:
+            rebound |= _own_stores(h.body)          # on the way on, everything the handler binds is bound
     return sorted(out, key=lambda t: (getattr(t[1], 'lineno', 0), getattr(t[1], 'col_offset', 0)))
+
+
+def _repeated_lookups(fi, h):
+    """Subscript loads in the handler that repeat, letter for letter, a subscript load of the protected block (what failed
+    there fails again here, now outside any protection), unless a ``try`` nested in the handler catches the lookup error."""
+    tr = fi.mod.parents.get(h)
+    if not isinstance(tr, ast.Try):
+        return []
+    tried = set(norm(n) for st in tr.body for n in ast.walk(st) if isinstance(n, ast.Subscript) and isinstance(n.ctx, ast.Load) and
+                not isinstance(n.slice, ast.Slice))
+    inner = [x for st in h.body for x in ast.walk(st)]
+    out = []
+    for n in inner:
+        if isinstance(n, ast.Subscript) and isinstance(n.ctx, ast.Load) and norm(n) in tried:
+            hh = protected_by(fi, n, 'KeyError')
+            if hh is not None and any(hh is x for x in inner):
+                continue
+            out.append(n)
+    return out
 
 
 def _r18c(rep, repo, meta):
@@ -3087,7 +3110,7 @@ def _r18c(rep, repo, meta):
             stale = _success_only_reads(hf, h)
             rep.check('R18.c', fkey(anchor, c) + '::result bound on the failure path', not stale,
                       'every name read after the try statement is bound by the handler (or earlier in the same iteration)' if not stale else
-                      '%s is bound only where the protected call succeeds, and is read after the try statement (%s): when the section fails '
+                      '%s is bound only where the protected block succeeds, and is read on the failure path -- in the handler or after the try statement (%s): when the section fails '
                       'the read raises NameError (the page answers 500) or shows what the previous section left behind'
                       % (stale[0][0], short(stmt_of(hf.mod, stale[0][1]), 50)), hf.mod, stale[0][1] if stale else h)
         if h is not None and h.name:
@@ -3098,6 +3121,11 @@ def _r18c(rep, repo, meta):
             rep.check('R18.c', fkey(anchor, c) + '::handler total', not idx, 'the handler does not index into the exception' if not idx else
                       'the handler indexes into the caught exception (%s): an exception without arguments makes the handler itself '
                       'fail and the page answers 500' % short(idx[0], 50), hf.mod, idx[0] if idx else h)
+            again = _repeated_lookups(hf, h)
+            rep.check('R18.c', fkey(anchor, c) + '::handler does not repeat a lookup', not again,
+                      'the handler repeats no lookup of the protected block' if not again else
+                      'the handler repeats the lookup %s of the protected block: when that lookup is what failed it fails again, inside the '
+                      'handler, and the page answers 500' % short(again[0], 50), hf.mod, again[0] if again else h)
             # .. and reads from it only what every exception has: the handler catches exceptions of any class
             part = _partial_exception_reads(repo, hf, hnodes, h.name)
             rep.check('R18.c', fkey(anchor, c) + '::handler reads universal attributes', not part,
